@@ -466,6 +466,29 @@ def run_case(case):
                             {'string': s, 'root': case['root'], 'flavor': flavor,
                              'got': real, 'want': want, '__case__': sub(s)})
 
+        # ---- ... and with a staging directory: DESTDIR + ordinary joining (POSIX install
+        # roots and absolute paths; an empty suffix - the root directory itself - included)
+        if flavor == 'posix' and case['root'] not in ('srcdir', 'builddir'):
+            from bfg9000.platforms.basepath import DestDir
+            stage = '/st age'
+            try:
+                pd = P(s, rootobj, destdir=True)
+                # (every base given as a string, the way a back end gives them as variables:
+                # realize() then returns the joined text)
+                vd = {k: varstrs[k.name] for k in variables}
+                vd[DestDir.destdir] = stage
+                real = pd.realize(vd)
+                if not isinstance(real, str):
+                    real = 'EXC not a string: ' + repr(real)
+            except Exception as e:
+                real = 'EXC ' + repr(e)
+            res.ev('law:string-destdir')
+            want = stage + expected_string(flavor, varstrs, p.root.name, p.suffix)
+            if real.startswith('EXC') or posixpath.normpath(real) != posixpath.normpath(want):
+                res.violate(('string', 'destdir'),
+                            {'string': s, 'root': case['root'], 'flavor': flavor,
+                             'got': real, 'want': want, '__case__': sub(s)})
+
     # ---- set laws on seeded pairs/triples of accepted paths
     rng = core.rng_for(0, 'c12sets', case['setseed'])
     for _ in range(case['sets'] if len(accepted) >= 2 else 0):
